@@ -144,6 +144,12 @@ func (f *function) diffEnv() (bool, string, diff.ValueDiff, error) {
 		return false, "environment changed", nil, nil
 	}
 	if eq {
+		// The language calls values of different types equal (1 == 1.0, and so every container that
+		// differs only in such elements), but a function that uses them does not behave alike.
+		// Their encodings tell them apart.
+		if parts := partsEncodedDifferently(f.oldEnv, f.newEnv); len(parts) != 0 {
+			return false, changedReason(parts), nil, nil
+		}
 		return true, "", nil, nil
 	}
 
@@ -174,20 +180,67 @@ func (f *function) diffEnv() (bool, string, diff.ValueDiff, error) {
 		}
 	}
 
-	var reason string
-	switch len(reasons) {
-	case 0:
+	if len(reasons) == 0 {
 		// The environments differ in a part this version does not know: the record was written by
 		// another version, or is damaged.
 		return false, "environment changed", d, nil
-	case 1:
-		reason = reasons[0]
-	case 2:
-		reason = reasons[0] + " and " + reasons[1]
-	default:
-		reason = strings.Join(reasons[:len(reasons)-1], ", ") + ", and " + reasons[len(reasons)-1]
 	}
-	return false, reason + " changed", d, nil
+	return false, changedReason(reasons), d, nil
+}
+
+// changedReason names the parts of an environment that changed.
+func changedReason(parts []string) string {
+	var reason string
+	switch len(parts) {
+	case 1:
+		reason = parts[0]
+	case 2:
+		reason = parts[0] + " and " + parts[1]
+	default:
+		reason = strings.Join(parts[:len(parts)-1], ", ") + ", and " + parts[len(parts)-1]
+	}
+	return reason + " changed"
+}
+
+// partsEncodedDifferently returns the parts of two equal environments whose encodings differ.
+func partsEncodedDifferently(oldEnv, newEnv starlark.Value) []string {
+	oldDict, ok := oldEnv.(*starlark.Dict)
+	if !ok {
+		return nil
+	}
+	newDict, ok := newEnv.(*starlark.Dict)
+	if !ok {
+		return nil
+	}
+
+	encode := func(x starlark.Value) ([]byte, bool) {
+		var buf bytes.Buffer
+		err := pickle.NewEncoder(&buf, pickle.PicklerFunc(func(x starlark.Value) (string, string, starlark.Tuple, error) {
+			if b, ok := x.(builtinRef); ok {
+				return "dawn", "Builtin", starlark.Tuple{starlark.String(b)}, nil
+			}
+			return "", "", nil, pickle.ErrCannotPickle
+		})).Encode(x)
+		return buf.Bytes(), err == nil
+	}
+
+	var parts []string
+	for _, k := range functionEnvKeys {
+		oldPart, _, _ := oldDict.Get(k)
+		newPart, _, _ := newDict.Get(k)
+		if oldPart == nil || newPart == nil {
+			continue
+		}
+		oldBytes, ok := encode(oldPart)
+		if !ok {
+			continue
+		}
+		newBytes, ok := encode(newPart)
+		if ok && !bytes.Equal(oldBytes, newBytes) {
+			parts = append(parts, string(k))
+		}
+	}
+	return parts
 }
 
 func (f *function) upToDate() (bool, string, diff.ValueDiff, error) {
